@@ -61,6 +61,11 @@ def work(case):
     if "doc" not in case:
         doc, feats, rng = gen.gen_document(case["seed"], case["index"], PROFILES[case["profile"]])
         case = dict(case, doc=doc, features=feats)
+        if case.get("stream") == "bridges" and rng.random() < 0.35:
+            # a paragraph with two pending deletions and three edits: accepted-view match, raw-view match that splits
+            # the run in between, accepted-view match in that same run
+            case["bridge_edits"] = editgen.inject_bridge_paragraph(rng, doc)
+            case["bridge_para"] = True
     else:
         rng = random.Random(case.get("index", 0))
     quoted = None
@@ -71,9 +76,14 @@ def work(case):
     edits = case.get("edits")
     if edits is None:
         if case.get("stream") == "bridges":
-            edits = editgen.gen_batch(rng, case["doc"], texts, 3, KINDS, comment_p=0.2, same_para_bias=1.0)
+            edits = editgen.gen_bridge_pair(rng, case["doc"], texts) if rng.random() < 0.4 else []
+            edits = edits or editgen.gen_batch(rng, case["doc"], texts, 3, KINDS, comment_p=0.2, same_para_bias=1.0)
+            if case.get("bridge_para"):
+                edits = list(case["bridge_edits"])
         else:
             edits = editgen.gen_batch(rng, case["doc"], texts, rng.randint(1, 3), KINDS, comment_p=0.3)
+        if rng.random() < 0.3:
+            edits += [e for e in editgen.gen_cell_start_prefix(rng, case["doc"], texts) if not any(e["pi"] == y.get("pi") for y in edits)]
         if quoted and texts["clean"].count(quoted["target"]) == 1 and texts["raw"].count(quoted["target"]) == 1:
             edits = [e for e in edits if e["pi"] != quoted["pi"]] + [quoted]
     out = {"case": dict(case, edits=edits), "err": None, "clean": texts["clean"]}
